@@ -11,6 +11,8 @@ def run(tier):
     d, cases, outs = common.mc_replay(rep, binary, PROP, "MC_C14", keyf=common.default_key)
     # (b) impl -> spec: value-level mutations of the accepted SCT encodings, compared with the specification's answer
     common.dfuzz(rep, binary, PROP, cases, 3000 if tier != "thorough" else 60000)
+    # (growth) every length of the variable-size fields, not only the boundaries (MC_LenSweep)
+    common.len_sweep(rep, binary, PROP)
     return rep.finish("model_checking",
                       "cases = RFC 6962 encodings of 109 SCT values (versions 0/1/255, timestamps 0/1/0x0102..08/2^64-1, extension and "
                       "signature lengths 0/1/255/30000) alone and in lists of 0..3 with suffixes; entries reaching beyond the list; lists "
